@@ -54,6 +54,37 @@ def obligations(tier, ctx):
         for idt in (("int", "str") if kind != 1 else ("int",)):
             obs.append(Ob(name=f"envelope_{kind}_{idt}", params=[("rid", idt), ("leaf", "str")], pre=([f"len(rid) <= 3"] if idt == "str" else []) + ["len(leaf) <= 2"],
                           call=f"H.envelope({kind}, rid, leaf)", backend="F", timeout=200, family="JSON-RPC envelopes with every id shape"))
+    # size / count dimension, under BOTH backends (each against the same reference, so also against each other)
+    import subprocess, json
+    from symcheck import runner, consts
+    code = "import sys, json; sys.path.insert(0, %r); import harness.h_models as H; print('LISTS ' + json.dumps([k for k in H.MODELS if H.has_list(k)]))" % ctx["root"]
+    p = subprocess.run([runner.PY, "-c", code], env=runner.base_env(runner.Ob(name="x", params=[], pre=[], call="", backend="F")), capture_output=True, text=True)
+    with_lists = []
+    for l in p.stdout.splitlines():
+        if l.startswith("LISTS "):
+            with_lists = json.loads(l[6:])
+    all_keys = [k for k, _v, _n in model_table(ctx, tier)]
+    ENVS = (4096, 8192, 65536, 131072)
+    pick_q = ("ListToolsResult", "CallToolResult", "ReadResourceResult", "CompletionResult")
+    for key in with_lists:
+        if tier == "quick" and key.split(".")[-1] not in pick_q:
+            continue
+        short = key.split(".")[-2][:10] + "_" + key.split(".")[-1]
+        for be in (("P",) if (tier == "quick" and key.split(".")[-1] != "CompletionResult") else ("P", "F")):
+            # the pure-Python backend under the engine's tracing costs 2-3 s per list item (it re-reads the type hints
+            # of every nested model): small counts there, and only one model in the quick tier
+            lim = (62 if be == "P" else 32) if tier == "quick" else (410 if be == "P" else 32)
+            obs.append(Ob(name=f"biglist_{short}_{be}", params=[("k", "int")], pre=[f"0 <= k < {len(consts.size_cases(lim))}"], call=f"H.lossless_big({key!r}, k, 1, 0, {lim})", backend=be, timeout=1200,
+                          family="count: outermost lists of c-1, c, c+1 items (c: integer constants of the source; <= 110/410 under Pydantic, <= 32 under the pure-Python backend), both backends"))
+    for key in all_keys:
+        if tier == "quick" and key.split(".")[-1] not in ("TextContent", "Tool", "InitializeResult"):
+            continue
+        short = key.split(".")[-2][:10] + "_" + key.split(".")[-1]
+        for be in (("P",) if (tier == "quick" and key.split(".")[-1] != "TextContent") else ("P", "F")):
+            slim = 70000 if be == "P" else 5000
+            for pat in ((5,) if tier == "quick" else (5, 15)):
+                obs.append(Ob(name=f"bigstr_{short}_{be}_p{pat}", params=[("k", "int")], pre=[f"0 <= k < {len(consts.size_cases(slim, extra=ENVS))}"], call=f"H.lossless_big({key!r}, k, 0, {pat}, {slim})", backend=be, timeout=1200,
+                              family="size: string leaves of c-1, c, c+1 characters (c: integer constants of the source and environment sizes; <= 70000 under Pydantic, <= 5000 under the pure-Python backend), both backends"))
     obs.append(Ob(name="invariant_root", params=[("uri", "str")], pre=["len(uri) <= 9"], call="H.invariant_root(uri)", backend="F", timeout=200, family="documented invariants (fallback side)"))
     obs.append(Ob(name="invariant_completion", params=[("n", "int")], pre=["n in (0, 1, 100, 101, 150)"], call="H.invariant_completion(n)", backend="F", timeout=200, family="documented invariants (fallback side)"))
     return obs
